@@ -17,13 +17,13 @@ E = '\x1b'
 
 def plan(ctx):
     items = []
-    for i in range(ctx.n(350, 8000)):
+    for i in range(ctx.n(500, 8000)):
         items.append(('real', engine.stable_hash((ctx.seed, 'c08r', i))))
-    for i in range(ctx.n(1200, 30000)):
+    for i in range(ctx.n(3500, 60000)):
         items.append(('synth', engine.stable_hash((ctx.seed, 'c08s', i))))
-    for i in range(ctx.n(900, 20000)):
+    for i in range(ctx.n(2500, 40000)):
         items.append(('moved', engine.stable_hash((ctx.seed, 'c08m', i))))
-    for i in range(ctx.n(300, 6000)):
+    for i in range(ctx.n(900, 12000)):
         items.append(('raw', engine.stable_hash((ctx.seed, 'c08w', i))))
     return items
 
